@@ -64,7 +64,7 @@ func c20Run(ctx *core.Ctx) {
 		nConc /= 3
 		nReplay /= 3
 	}
-	ctx.Rule = fmt.Sprintf("under the race detector (GOMAXPROCS default and 1%s): all orders of up to %d harness events from {delivery completes, client sends RSET, client submits the next transaction, client sends QUIT, peer disconnects, Server.Close, Server.Shutdown} for a parked chunked (BDAT) delivery, a parked LMTP DATA delivery, a parked LMTP BDAT delivery and a parked BDAT delivery of an LMTP server over a plain Session; Server.Close / Conn.Close overlapping each backend callback kind (callback parked on a gate, second closer on another goroutine; also called directly from Mail/Rcpt/Data/NewSession); %d barrier-released groups of 2..8 concurrent Close/Shutdown callers on 1..2 listeners (with and without a failing listener Close) checked for linearizability with porcupine against 'first caller gets the listener result, later ones ErrServerClosed'; all sequences of length <=5 of temporary/permanent Accept errors; %d cases replayed from the C03/C05/C13 generators for race coverage. Oracles: race-log parser, termination of Serve/handlers/deliveries, goroutine table at the end of the run. Non-trivial: every case; distinct by case.", map[bool]string{true: ", 4", false: ""}[ctx.Thorough()], maxOrder, nConc, nReplay)
+	ctx.Rule = fmt.Sprintf("under the race detector (GOMAXPROCS default and 1%s): all orders of up to %d harness events from {delivery completes, client sends RSET, client submits the next transaction, client sends QUIT, peer disconnects, Server.Close, Server.Shutdown} for a parked chunked (BDAT) delivery, a parked LMTP DATA delivery, a parked LMTP BDAT delivery and a parked BDAT delivery of an LMTP server over a plain Session; Server.Close / Conn.Close overlapping each backend callback kind (callback parked on a gate, second closer on another goroutine; also called directly from Mail/Rcpt/Data/NewSession); %d barrier-released groups of 2..8 concurrent Close/Shutdown callers on 1..2 listeners (with and without a failing listener Close) checked for linearizability with porcupine against 'first caller gets the listener result, later ones ErrServerClosed'; all sequences of length <=5 of temporary/permanent Accept errors; Shutdown with a context that has already expired or expires while 0..2 connections are open (it must still stop accepting); %d cases replayed from the C03/C05/C13 generators for race coverage. Oracles: race-log parser, termination of Serve/handlers/deliveries, goroutine table at the end of the run. Non-trivial: every case; distinct by case.", map[bool]string{true: ", 4", false: ""}[ctx.Thorough()], maxOrder, nConc, nReplay)
 	ctx.Assumptions = []string{"the race detector only sees executed accesses", "known race findings are matched by exact statement pair", "Serve calls that start after Close are not judged"}
 	core.RunCases(ctx, func(emit func(c20Case)) {
 		events := []string{"D", "R", "N", "Q", "X", "C", "S"}
@@ -129,6 +129,13 @@ func c20Run(ctx *core.Ctx) {
 				}
 			}
 		}
+		for _, when := range []string{"already-expired", "expires-later"} {
+			for nconn := 0; nconn <= 2; nconn++ {
+				for rep := 0; rep < 3; rep++ {
+					emit(c20Case{Kind: "expired", Callback: when, NList: nconn, Seed: uint64(rep)})
+				}
+			}
+		}
 		for i := 0; i < nReplay; i++ {
 			emit(c20Case{Kind: "replay", Seed: uint64(i)})
 		}
@@ -150,6 +157,88 @@ func c20Exec(ctx *core.Ctx, c c20Case) {
 		c20Stalled(ctx, c)
 	case "replay":
 		c20Replay(ctx, c)
+	case "expired":
+		c20Expired(ctx, c)
+	}
+}
+
+// c20Expired: Shutdown called with a context that has already expired (or that expires while a
+// connection is still open) has no time to wait, but it still stops accepting: Serve returns,
+// the server counts as closed, and the connections that are still open end when their peers go.
+func c20Expired(ctx *core.Ctx, c c20Case) {
+	if gaveUp("c20expired") {
+		ctx.Add("cases_skipped_after_an_established_hang", 1)
+		return
+	}
+	ctx.Eval(fmt.Sprintf("expired|%d|%s|%d", c.NList, c.Callback, c.Seed), true)
+	rig := newRig(modeSMTP, nil)
+	var peers []*wire.Peer
+	for i := 0; i < c.NList; i++ { // NList doubles as the number of open connections here
+		p := rig.Dial()
+		p.ReadReply()
+		p.SendStr("EHLO c.test\r\n")
+		p.ReadReply()
+		peers = append(peers, p)
+	}
+	fail := func(sig, msg string, extra []string) {
+		ctx.Violate(sig, msg+fmt.Sprintf(" [open connections=%d context=%s]", c.NList, c.Callback), c, append(rig.Log.Strings(40), extra...))
+	}
+	rig.L.WaitAccepting() // Serve has registered its listener (Shutdown racing the start of Serve is not judged)
+	rig.L.WaitDrained()
+	sctx, cancel := context.WithCancel(context.Background())
+	if c.Callback == "already-expired" {
+		cancel()
+	}
+	sd := make(chan error, 1)
+	go func() { sd <- rig.Srv.Shutdown(sctx) }()
+	if c.Callback != "already-expired" {
+		for i := 0; i < 50; i++ {
+			runtime.Gosched()
+		}
+		cancel() // expires while Shutdown waits (or after it returned, with no connection open)
+	}
+	var serr error
+	select {
+	case serr = <-sd:
+	case <-time.After(wire.Watchdog):
+		lines, blocked := c20Blocked()
+		if blocked || len(lines) == 0 {
+			fail("C20:shutdown-does-not-return", "Shutdown does not return although its context has expired", lines)
+		} else {
+			ctx.Inconclusive("C20 expired/Shutdown watchdog")
+		}
+		for _, p := range peers {
+			p.Close()
+		}
+		return
+	}
+	if c.NList > 0 && serr == nil {
+		fail("C20:shutdown-returned-before-connections-ended", "Shutdown returned nil while a connection was still open", nil)
+	}
+	// it has stopped accepting: Serve returns, and the server is closed for later callers
+	if _, ok := rig.WaitServe(); !ok {
+		giveUp("c20expired")
+		lines, _ := c20Blocked()
+		fail("C20:shutdown-leaves-listener-open", fmt.Sprintf("Shutdown returned %v (context expired) but Serve keeps running: the listeners were not closed", serr), lines)
+		rig.Srv.Close()
+		for _, p := range peers {
+			p.Close()
+		}
+		return
+	}
+	if err := rig.Srv.Close(); !errors.Is(err, smtp.ErrServerClosed) {
+		fail("C20:second-close-result", fmt.Sprintf("Close after Shutdown returned %v, expected ErrServerClosed", err), nil)
+	}
+	for _, p := range peers {
+		p.Close()
+	}
+	if !rig.Finish() {
+		lines, blocked := c20Blocked()
+		if blocked {
+			fail("C20:handler-does-not-end", "the peers have gone but a handler does not end", lines)
+		} else {
+			ctx.Inconclusive("C20 expired: watchdog at the end")
+		}
 	}
 }
 
